@@ -1,13 +1,18 @@
 ------------------------------------------ MODULE MC_Lints ------------------------------------------
 EXTENDS Lints, TLC, Json
 CONSTANTS Dev, CliCaseDev
-VARIABLES s, p, args
+VARIABLES s, p, args, extra
 \* 'DuplicateFile' is no valid argument of the allow attribute (it is a command-line lint): not written in attributes
-Init == s \in Sites /\ p \in Places /\ args \in ArgSets /\ Applicable(s, p)
+\* a second, unrelated suppression (naming only the OTHER lint) present with and without the suppression under test: as a
+\* separate attribute in front of it on the element itself, on its parent, or as a separate file attribute
+Extras == {"none", "own_other", "parent_other", "file_other_attr"}
+ExtraApplicable == /\ (extra # "none" => p \in {"own", "parent", "grandparent", "file_own"} /\ s # "dupfile")
+                   /\ (extra = "parent_other" => HasParent(s))
+Init == s \in Sites /\ p \in Places /\ args \in ArgSets /\ Applicable(s, p) /\ extra \in Extras /\ ExtraApplicable
         /\ ~(s = "dupfile" /\ p = "file_own" /\ "SAME" \in ToSet(args))
-Next == UNCHANGED <<s, p, args>>
+Next == UNCHANGED <<s, p, args, extra>>
 \* the intended implementation (Dev flags off) silences exactly what the statement says; with the flags of the pinned
 \* tree the equivalence fails (allow on a member vs Deprecated about its type; lower-case --allow)
 RefEqOp == RefSilenced(s, p, args) = OpSilenced(s, p, args, Dev, CliCaseDev)
-Emit == PrintT(<<"CASE", ToJson([site |-> s, kind |-> KindOf(s), place |-> p, args |-> args, silenced |-> RefSilenced(s, p, args)])>>)
+Emit == PrintT(<<"CASE", ToJson([site |-> s, kind |-> KindOf(s), place |-> p, args |-> args, extra |-> extra, silenced |-> RefSilenced(s, p, args)])>>)
 ====================================================================================================
